@@ -543,6 +543,12 @@ class HTTPConnectionPool(ConnectionPool, RequestMethods):
         response._connection = response_conn  # type: ignore[attr-defined]
         response._pool = self  # type: ignore[attr-defined]
 
+        if response_conn is not None and response.isclosed():
+            # The body was read to its end while the response was built
+            # (``preload_content=True``, or there is none): that read could
+            # not release a connection the response did not know yet.
+            response.release_conn()
+
         log.debug(
             '%s://%s:%s "%s %s %s" %s %s',
             self.scheme,
